@@ -523,3 +523,235 @@ specialise(
     bounds="consumer cell kind and chain lengths (common 0/2, referrer 0-2, target 0-2) fixed per instance",
     weight=200,
 )
+
+
+# ---- f: reference forms found by review (round 3): prefix-named sibling repeats, references to the enclosing
+# repeat itself, several indexed-repeat() calls, select-from-repeat filters, triggered calculations, ${root} ----
+def _resolve(ctx, tok):
+    """Independent evaluator of the location paths pyxform emits: absolute '/a/b', or ('current()/')? ('../')* steps
+    evaluated from the context node (a list of element names from the root).  Returns the list of names or None."""
+    t = tok.strip()
+    if t.startswith("current()/"):
+        t = t[len("current()/") :]
+    if t.startswith("/"):
+        return t[1:].split("/")
+    cur = list(ctx)
+    for step in t.split("/"):
+        if step == "..":
+            if len(cur) <= 1:
+                return None
+            cur = cur[:-1]
+        elif step == ".":
+            pass
+        elif step == "":
+            return None
+        else:
+            cur = cur + [step]
+    return cur
+
+
+def _sec(k, name, **kw):
+    d = {"type": "begin " + ("repeat" if k else "group"), "name": name, "label": "L"}
+    d.update(kw)
+    return d
+
+
+def _end(k):
+    return {"type": "end " + ("repeat" if k else "group")}
+
+
+PREFIX_NAMES = [("rep", "rep2"), ("rep2", "rep"), ("ab", "abc"), ("abc", "ab"), ("rep", "qrep"), ("p", "q")]
+
+
+def c03_prefix_siblings(pair: int, k0: bool, k1: bool, k2: bool, x0: int) -> bool:
+    """
+    vpre: 33 <= x0 <= 126 and x0 != 36
+    vpost: _ == True
+    """
+    a, b = PREFIX_NAMES[pair]
+    rows = [_sec(k0, "o"), _sec(k1, a), {"type": "integer", "name": "x", "label": S(x0, 88)}, _end(k1), _sec(k2, b), {"type": "calculate", "name": "y", "calculation": "${x} + 1"}, {"type": "text", "name": "t", "label": "T"}, _end(k2), _end(k0)]
+    survey, _w, _js = build_survey({"survey": rows}, prefill=False)
+    root = survey.xml()
+    b_ = [e for e in elements(root, "bind") if e.getAttribute("nodeset") == "/data/o/" + b + "/y"]
+    if len(b_) != 1:
+        return False
+    v = b_[0].getAttribute("calculate")
+    if not v.endswith(" + 1") or "${" in v:
+        return False
+    tok = v[: -len(" + 1")]
+    if _resolve(["data", "o", b, "y"], tok) != ["data", "o", a, "x"]:
+        return False
+    # relative required when the target's innermost enclosing repeat (o, if the target's own section is a group) encloses the referrer
+    need_rel = (not k1) and k0
+    return not (need_rel and tok.strip().startswith("/"))
+
+
+specialise(
+    "C03",
+    "f.prefix-siblings",
+    c03_prefix_siblings,
+    {"pair": list(range(len(PREFIX_NAMES)))},
+    reach_if=lambda fx: fx["pair"] == 0,
+    timeout=300,
+    kernel=K + ("pyxform.survey:share_same_repeat_parent", "pyxform.survey:is_parent_a_repeat"),
+    shims=("S1", "S2", "S4"),
+    symbolic="group/repeat kind of the outer section and of the two sibling sections (3 symbolic booleans), label tracer on the target",
+    bounds="sibling section names fixed per instance from a menu in which one name is a string prefix / suffix of the other (rep/rep2, ab/abc, rep/qrep) or unrelated; calculation '${x} + 1' in the second sibling referring into the first; emitted path evaluated by an independent location-path resolver",
+    weight=30,
+)
+
+
+def c03_indexed_repeats(n: int, tail: bool, lead: bool, x0: int) -> bool:
+    """
+    vpre: 1 <= n <= 4
+    vpre: 33 <= x0 <= 126 and x0 != 36
+    vpost: _ == True
+    """
+    names = ["a", "b", "a", "b"]
+    calls = ["indexed-repeat(${%s}, ${r}, %d)" % (names[i], i + 1) for i in range(n)]
+    expr = " + ".join((["${c}"] if lead else []) + calls + (["${c}"] if tail else []))
+    rows = [_sec(True, "r"), {"type": "integer", "name": "a", "label": S(x0, 65)}, {"type": "integer", "name": "b", "label": "B"}, {"type": "integer", "name": "c", "label": "C"}, {"type": "calculate", "name": "y", "calculation": expr}, _end(True)]
+    survey, _w, _js = build_survey({"survey": rows}, prefill=False)
+    root = survey.xml()
+    b_ = [e for e in elements(root, "bind") if e.getAttribute("nodeset") == "/data/r/y"]
+    if len(b_) != 1:
+        return False
+    v = b_[0].getAttribute("calculate")
+    want = " + ".join(([" ../c "] if lead else []) + ["indexed-repeat( /data/r/%s ,  /data/r , %d)" % (names[i], i + 1) for i in range(n)] + ([" ../c "] if tail else []))
+    return v == want
+
+
+specialise(
+    "C03",
+    "f.indexed-repeats",
+    c03_indexed_repeats,
+    {"tail": [False, True]},
+    timeout=300,
+    kernel=K,
+    shims=("S1", "S2", "S4"),
+    symbolic="number of indexed-repeat() calls in one calculation (1..4), presence of a plain ${c} before the first call, label tracer",
+    bounds="one repeat with three questions; plain ${c} after the last call present / absent per instance; every indexed-repeat argument must be absolute and every plain reference relative (property statement)",
+    weight=30,
+)
+
+
+def c03_root_reference(depth: int, k0: bool, k1: bool, in_label: bool, x0: int) -> bool:
+    """
+    vpre: 0 <= depth <= 2
+    vpre: 33 <= x0 <= 126 and x0 != 36
+    vpost: _ == True
+    """
+    ks = [k0, k1][:depth]
+    rows = [_sec(k, "g%d" % i) for i, k in enumerate(ks)]
+    q = {"type": "text", "name": "y", "label": S(x0, 89)}
+    if in_label:
+        q["label"] = "v ${data} w"
+    else:
+        q["relevant"] = "count(${data}) > 0"
+    rows.append(q)
+    rows += [_end(k) for k in reversed(ks)]
+    survey, _w, _js = build_survey({"survey": rows}, prefill=False)
+    root = survey.xml()
+    path = "/data/" + "".join("g%d/" % i for i in range(depth)) + "y"
+    if in_label:
+        outs = elements(root, "output")
+        return len(outs) == 1 and _resolve(path[1:].split("/"), outs[0].getAttribute("value")) == ["data"]
+    b_ = [e for e in elements(root, "bind") if e.getAttribute("nodeset") == path]
+    v = b_[0].getAttribute("relevant")
+    return v.startswith("count(") and v.endswith(") > 0") and _resolve(path[1:].split("/"), v[6:-5]) == ["data"]
+
+
+specialise(
+    "C03",
+    "f.root-reference",
+    c03_root_reference,
+    {"in_label": [False, True]},
+    timeout=300,
+    kernel=K,
+    shims=("S1", "S2", "S4"),
+    symbolic="nesting depth of the referring question (0..2), group/repeat kind of each enclosing section, label tracer",
+    bounds="reference ${data} to the form's root element from a relevant cell / a label (fixed per instance)",
+    weight=30,
+)
+
+
+def c03_known_forms(which: int, k0: bool, x0: int) -> bool:
+    """
+    vpre: 33 <= x0 <= 126 and x0 != 36
+    vpost: _ == True
+    """
+    if which == 0:
+        # a calculation inside nested repeat r2 counts r2 itself
+        rows = [_sec(k0, "r1"), _sec(True, "r2"), {"type": "integer", "name": "x", "label": S(x0, 88)}, {"type": "calculate", "name": "y", "calculation": "count(${r2})"}, _end(True), _end(k0)]
+        survey, _w, _js = build_survey({"survey": rows}, prefill=False)
+        root = survey.xml()
+        v = [e for e in elements(root, "bind") if e.getAttribute("nodeset") == "/data/r1/r2/y"][0].getAttribute("calculate")
+        return v.startswith("count(") and v.endswith(")") and _resolve(["data", "r1", "r2", "y"], v[6:-1]) == ["data", "r1", "r2"]
+    if which == 1:
+        # select from repeat whose choice filter mentions a question whose name starts with the repeat's name
+        rows = [{"type": "integer", "name": "person_min", "label": S(x0, 77)}, _sec(True, "person"), {"type": "text", "name": "pname", "label": "N"}, {"type": "integer", "name": "age", "label": "A"}, _end(True), {"type": "select_one ${pname}", "name": "pick", "label": "P", "choice_filter": "${age} > ${person_min}"}]
+        survey, _w, _js = build_survey({"survey": rows}, prefill=False)
+        root = survey.xml()
+        ns = elements(root, "itemset")[0].getAttribute("nodeset")
+        if not (ns.startswith("/data/person[") and ns.endswith("]")):
+            return False
+        left, _gt, right = ns[len("/data/person[") : -1].partition(">")
+        # the predicate is evaluated on a /data/person node
+        return _resolve(["data", "person"], left) == ["data", "person", "age"] and _resolve(["data", "person"], right) == ["data", "person_min"]
+    # a triggered calculation deeper in the repeat than its trigger: the setvalue's value is evaluated with the ref node (the
+    # question the calculation cell belongs to) as context
+    rows = [_sec(True, "r"), {"type": "integer", "name": "q1", "label": S(x0, 81)}, {"type": "integer", "name": "x", "label": "X"}, _sec(k0, "g"), {"type": "calculate", "name": "c", "calculation": "${x} + 1", "trigger": "${q1}"}, {"type": "text", "name": "t", "label": "T"}, _end(k0), _end(True)]
+    survey, _w, _js = build_survey({"survey": rows}, prefill=False)
+    root = survey.xml()
+    sv = [e for e in elements(root, "setvalue") if e.getAttribute("ref") == "/data/r/g/c"]
+    if len(sv) != 1:
+        return False
+    v = sv[0].getAttribute("value")
+    return v.endswith(" + 1") and _resolve(["data", "r", "g", "c"], v[:-4]) == ["data", "r", "x"]
+
+
+for _w, _fid in ((0, "F24"), (1, "F25"), (2, "F26")):
+    specialise(
+        "C03",
+        "f.known-forms",
+        c03_known_forms,
+        {"which": [_w]},
+        timeout=300,
+        kernel=K + ("pyxform.question:MultipleChoiceQuestion.build_xml", "pyxform.question:Question.nest_set_nodes"),
+        shims=("S1", "S2", "S4"),
+        symbolic="group/repeat kind of one section, label tracer",
+        bounds="fixed form shape that reproduces known finding " + _fid + " (F24 reference to the enclosing nested repeat, F25 select-from-repeat filter rewritten by str.replace, F26 triggered calculation resolved from the trigger but evaluated from the target)",
+        weight=20,
+        expect="known",
+        reach=False,
+        classifier=(lambda fid: (lambda call, replay: fid))(_fid),
+    )
+specialise(
+    "C03",
+    "b.uneven-chains",
+    c03_cells,
+    {"cell": [0], "who": [0], "nc": [1], "nr": [0, 3], "nt": [0, 3]},
+    skip_if=lambda fx: fx["nr"] == fx["nt"],
+    reach_if=lambda fx: False,
+    timeout=600,
+    kernel=_KB,
+    shims=("S1", "S2", "S4"),
+    symbolic="group/repeat kind of every section on the common, referrer and target chains (4 symbolic bits) and a label tracer",
+    bounds="relevant cell / label; referrer three sections deeper than the target below the common section, or the reverse (the two ancestor chains differ in length by 3)",
+    weight=120,
+)
+specialise(
+    "C03",
+    "b.uneven-chains",
+    c03_cells,
+    {"cell": [5], "who": [0], "nc": [1], "nr": [0, 3], "nt": [0, 3]},
+    tiers=("thorough",),
+    skip_if=lambda fx: fx["nr"] == fx["nt"],
+    reach_if=lambda fx: False,
+    timeout=600,
+    kernel=_KB,
+    shims=("S1", "S2", "S4"),
+    symbolic="group/repeat kind of every section on the common, referrer and target chains (4 symbolic bits) and a label tracer",
+    bounds="relevant cell / label; referrer three sections deeper than the target below the common section, or the reverse (the two ancestor chains differ in length by 3)",
+    weight=120,
+)
